@@ -208,7 +208,8 @@ def _rewrite(prop, case, f):
     # the declared encoding cannot take) or the codec: a refusal that the column types alone decide is made before anything is
     # opened, and is not explained by this finding if it ever comes late
     late = {("none_in_required", "writer.py:convert"), ("na_in_required_int", "writer.py:convert"),
-            ("bad_object_encoding", "writer.py:write_column"), ("unknown_codec", "compression.py:compress_data")}
+            ("bad_object_encoding", "writer.py:write_column"), ("unknown_codec", "compression.py:compress_data"),
+            ("int32_object_overflow", "writer.py:write_column")}      # (a python int the declared INT32 cannot take: known only from the values)
     if (f.get("rejection"), f.get("raised_where")) not in late:
         return False
     return f.get("kind", "").startswith(("dataset_unreadable_after_rejection", "content_changed_after_rejection", "existing_part_file_unreadable_after_rejection"))
